@@ -117,6 +117,7 @@ fn gen_file_bytes(w: &mut Tape) -> Result<(Syntax, Vec<u8>, ds::Layout, usize), 
         encapsulated: syn == Syntax::ExplicitLE,
         all_undefined: false,
         latin1: w.chance(1, 4),
+        utf8: w.chance(1, 5),
     };
     let model = restrict_to(&ds::gen_dataset(w, &gcfg), syn);
     let (dataset, layout) = ds::encode(&model, syn, None).map_err(harness)?;
@@ -238,6 +239,7 @@ fn run_dataset(w: &mut Tape, env: &EnvRef) -> RunResult {
         encapsulated: syn == Syntax::ExplicitLE,
         all_undefined: false,
         latin1: w.chance(1, 4),
+        utf8: w.chance(1, 5),
     };
     let model = restrict_to(&ds::gen_dataset(w, &gcfg), syn);
     let (mut bytes, layout) = ds::encode(&model, syn, None).map_err(harness)?;
@@ -400,6 +402,7 @@ fn run_json(w: &mut Tape, env: &EnvRef) -> RunResult {
         encapsulated: false,
         all_undefined: true,
         latin1: false,
+        utf8: false,
     };
     let model = model_items_undef(&restrict_to(&ds::gen_dataset(w, &gcfg), Syntax::ImplicitLE));
     let obj = build_object(&model, Syntax::ExplicitLE);
